@@ -124,7 +124,7 @@ PROPS = {
         "claimed": True,
         "technique": "TLA+ editor model (tree-shaped I-layer) checked against the property relation on every edge by TLC; every edge replayed as a history on a live object; recorded histories validated against the trace specification",
         "level_text": "TLC checks on every edge of the bounded document graph that the implementation-shaped editor step (spec/Deb822Edit.tla) satisfies the property relation (spec/Deb822EditP.tla: list effect on the reported content, identity of every line outside the touched field, strict re-read equals reported content, earlier handles see the edit); every edge is replayed on a live object from its base document through the shortest history and the observed text/content compared with the predicted one; any step that differs, and every step of seeded random histories on repository documents, is judged by the same relation in TLC (trace validation).",
-        "level_note": "bounded graph (<= 2/3 paragraphs x <= 2 fields, 18 base layouts incl. comments, blank runs, missing final newline, duplicate names, built and parsed origins); strict reader trusted for the re-read clause only together with the spec's own reading of the printed lines",
+        "level_note": "bounded graph (<= 2/3 paragraphs x <= 2 fields, 19 base layouts incl. comments, blank runs, missing final newline, duplicate names, built and parsed origins); strict reader trusted for the re-read clause only together with the spec's own reading of the printed lines",
         "stages": [EDIT_EDGES, EDIT_TRACE],
         "rule": "every edge (document, operation) of the TLC state graph, replayed with its shortest history on a live object under 2-3 concretisations; plus seeded random histories of 10-60 calls on repository documents; distinct = distinct (base, history, operation) resp. distinct (operation, pre-text)",
         "exhaustive": {"quick": True, "thorough": True},
